@@ -12,14 +12,27 @@ enum { K_RESOLVE = 0, K_CONSTRUCT = 1, K_PATCH = 2, K_GEN = 3, K_MERGE = 4, K_MG
 
 struct XUtils : Engine {
     UMode mode = U_POINTER; bool verbose = false; bool hooks_stage = false;
-    std::vector<RV> D; std::vector<cJSON*> Dreal, DrealCS; std::string built;
+    std::vector<RV> D; std::vector<cJSON*> Dreal, DrealCS, DrealNamed; std::string built;
     const char* name() override { return "x_utils"; }
     std::vector<std::string> counter_names() override { return { "library_calls", "reference_success", "reference_failure", "open_cases", "patch_ops_generated", "append_probes", "nodes_round_tripped" }; }
     void init() { mode = cfg.prop == "C16" ? U_PATCH : cfg.prop == "C17" ? U_GENERATE : cfg.prop == "C18" ? U_MERGE : U_POINTER; }
     void worker_init() override { init(); }
 
     // ------------------------------------------------------------ document sets
+    // length ladder: member names (and one string value) of every length 0..300 and around 512 / 1024, plain and with characters that
+    // need escaping in a pointer; each document has a sibling name that differs only in the last character and one that is one longer
+    static std::vector<int> ladder() { std::vector<int> v; for (int i = 0; i <= 300; i++) v.push_back(i); for (int i : { 511, 512, 513, 1023, 1024, 1025 }) v.push_back(i); return v; }
+    static std::string ladder_key(int n, int pat) { std::string k; for (int i = 0; i < n; i++) k += (char)('a' + (i * 7 + 3) % 26); if (pat == 1 && n > 0) { k[(size_t)n / 2] = '/'; k[(size_t)n - 1] = '~'; if (n > 2) k[0] = '~'; } return k; }
+    static RV ladder_doc(int n, int pat) {
+        std::string K = ladder_key(n, pat), K2 = K, K3 = K + "x"; if (n > 0) K2[(size_t)n - 1] = K2[(size_t)n - 1] == 'z' ? 'y' : 'z'; else K2 = "q";
+        RV leaf = RV::mk(RV::Obj); leaf.obj.emplace_back(K, RV::number(4));
+        RV arr = RV::mk(RV::Arr); arr.arr.push_back(RV::number(0)); arr.arr.push_back(leaf);
+        RV inner = RV::mk(RV::Obj); inner.obj.emplace_back(K, arr); inner.obj.emplace_back(K3, RV::number(5));
+        RV o = RV::mk(RV::Obj); o.obj.emplace_back(K, RV::number(1)); o.obj.emplace_back(K2, RV::string(K)); o.obj.emplace_back(K3, inner); return o;
+    }
+    static std::vector<RV> ladder_docs() { std::vector<RV> d; for (int n : ladder()) for (int pat = 0; pat < 2; pat++) { if (pat == 1 && n == 0) continue; d.push_back(ladder_doc(n, pat)); } return d; }
     static std::vector<RV> docset(const std::string& which) {
+        if (which == "len") return ladder_docs();
         TreeAlphabet al; al.max_arity = 3; al.max_depth = 3; al.dup_keys = false; std::vector<RV> d; int n = 3;
         if (which == "ptr") { al.leaves = { RV::number(1), RV::string("s") }; al.keys = { "a", "A", "0", "1", "01", "", "/", "~", "a/b", "m~n", "~0", "~1", "-" }; }
         else if (which == "ptr4") { al.leaves = { RV::number(1) }; al.keys = { "a", "0", "", "/", "~1" }; n = 4; }
@@ -50,7 +63,7 @@ struct XUtils : Engine {
         return d;
     }
     // larger hand-written documents (deep nesting, long and awkward keys, 13-element arrays) and every single-edit mutation of them
-    std::vector<std::pair<size_t, size_t>> bigpairs;
+    std::vector<std::pair<size_t, size_t>> bigpairs; size_t first_chain = 0, end_chain = 0;
     static void mutate(const RV& root, std::vector<RV>& out) {
         std::vector<std::vector<size_t>> paths; std::function<void(const RV&, std::vector<size_t>&)> rec = [&](const RV& v, std::vector<size_t>& p) { paths.push_back(p); size_t n = v.k == RV::Obj ? v.obj.size() : v.k == RV::Arr ? v.arr.size() : 0; for (size_t i = 0; i < n; i++) { p.push_back(i); rec(v.k == RV::Obj ? v.obj[i].second : v.arr[i], p); p.pop_back(); } };
         std::vector<size_t> p0; rec(root, p0);
@@ -62,7 +75,7 @@ struct XUtils : Engine {
         }
     }
     void build_big() {
-        if (built == "big") return; built = "big"; D.clear(); Dreal.clear(); DrealCS.clear(); bigpairs.clear();
+        if (built == "big") return; built = "big"; D.clear(); Dreal.clear(); DrealCS.clear(); DrealNamed.clear(); bigpairs.clear();
         static const char* texts[] = {
             "{\"name\":\"cJSON\",\"tags\":[\"a\",\"b\",\"c\",{\"deep\":{\"deeper\":{\"deepest\":[1,2,[3,[4,{\"k/ey\":\"v~al\"}]]]}}}],\"n\":1.5,\"t\":true,\"z\":null,\"long key with spaces and / slash ~ tilde ~0 ~1\":\"x\",\"\":{\"\":{\"\":0}}}",
             "[[[[[[1]]]]],[{\"a\":[{\"b\":[{\"c\":[]}]}]}],\"s\"]",
@@ -72,17 +85,30 @@ struct XUtils : Engine {
         for (auto t : texts) { RV v; if (!S_parse((const uint8_t*)t, strlen(t), v)) { fprintf(stderr, "bad big doc %s\n", t); abort(); } size_t oi = D.size(); D.push_back(v); std::vector<RV> ms; mutate(v, ms); for (auto& m : ms) { bigpairs.push_back({ oi, D.size() }); D.push_back(m); } }
         { RV e = RV::mk(RV::Obj); RV wide = RV::mk(RV::Obj); RV arr = RV::mk(RV::Arr); for (int i = 0; i < 10005; i++) arr.arr.push_back(RV::number(i)); wide.obj.emplace_back("w", arr); size_t a = D.size(); D.push_back(e); D.push_back(wide); bigpairs.push_back({ a, a + 1 });
           RV nested = RV::mk(RV::Arr); RV lvl = RV::mk(RV::Arr); for (int i = 0; i < 2600; i++) lvl.arr.push_back(RV::number(i)); for (int d = 0; d < 4; d++) { RV up = RV::mk(RV::Arr); up.arr.push_back(lvl); up.arr.push_back(lvl); lvl = up; } nested.arr.push_back(lvl); D.push_back(RV::mk(RV::Arr)); D.push_back(nested); bigpairs.push_back({ a + 2, a + 3 }); }
+        // chains around the parser's nesting limit and beyond it (trees of any depth can be built through the API): arrays, objects, alternating;
+        // partner documents differ only in the innermost value / have a member added or removed in the innermost container
+        first_chain = D.size();
+        for (int shape = 0; shape < (int)cfg.optl("chainshapes", 3); shape++) for (int depth : { 998, 999, 1000, 1001, 1002, 1500 }) {
+            auto chain = [&](int variant) { RV v = variant == 1 ? RV::number(2) : RV::number(1);
+                for (int i = 0; i < depth; i++) { bool obj = shape == 1 || (shape == 2 && i % 2 == 0); RV w = RV::mk(obj ? RV::Obj : RV::Arr);
+                    if (obj) { w.obj.emplace_back("k", std::move(v)); if (i == 0 && variant == 2) w.obj.emplace_back("extra", RV::string("x")); if (i == 0 && variant == 3) { w.obj.clear(); w.obj.emplace_back("other", RV::number(1)); } }
+                    else { w.arr.push_back(std::move(v)); if (i == 0 && variant >= 2) w.arr.push_back(RV::string("x")); }
+                    v = std::move(w); }
+                return v; };
+            size_t a = D.size(); D.push_back(chain(0)); for (int variant = 1; variant <= 3; variant++) { bigpairs.push_back({ a, D.size() }); D.push_back(chain(variant)); } }
+        end_chain = D.size();
+        for (auto& v : ladder_docs()) { size_t oi = D.size(); D.push_back(v); std::vector<RV> ms; mutate(v, ms); for (auto& m : ms) { bigpairs.push_back({ oi, D.size() }); D.push_back(m); } }
         for (auto& v : D) Dreal.push_back(nullptr);   // built per case
     }
     void build(const std::string& which) {
         if (which == "big") { build_big(); return; }
         if (built == which) return; built = which; D = docset(which); Dreal.clear();
         for (auto& v : D) Dreal.push_back(build_tree(v));
-        DrealCS.clear(); if (mode == U_POINTER) for (auto& v : D) DrealCS.push_back(build_tree_cs(v));
+        DrealCS.clear(); DrealNamed.clear(); if (mode == U_POINTER) for (auto& v : D) { DrealCS.push_back(build_tree_cs(v)); DrealNamed.push_back(build_tree_named(v)); }
     }
     std::string docs_for(const std::string& stage) {
         if (stage.compare(0, 3, "big") == 0) return "big";
-        if (mode == U_POINTER) return stage == "resolve4" || stage == "construct4" ? "ptr4" : "ptr";
+        if (mode == U_POINTER) return stage == "lengths" || stage == "construct_lengths" ? "len" : stage == "resolve4" || stage == "construct4" ? "ptr4" : "ptr";
         if (mode == U_MERGE) return stage.find("4") != std::string::npos ? "doc4" : "merge";
         if (mode == U_PATCH) { if (stage == "single1" || stage == "single1_hooks" || stage == "single2full" || stage == "robust") return "doc"; if (stage == "single4") return "doc4"; return "docs"; }
         return stage.find("4") != std::string::npos ? "doc4" : "doc";
@@ -90,7 +116,7 @@ struct XUtils : Engine {
     std::vector<std::string> stages() override {
         init(); bool T = cfg.thorough(); std::vector<std::string> st;
         switch (mode) {
-            case U_POINTER: { long k = cfg.optl("ptrlen", T ? 5 : 4); for (long i = 0; i <= k; i++) st.push_back("resolve_len" + std::to_string(i)); st.push_back("resolve_special"); st.push_back("construct"); st.push_back("after_edits"); if (T) { st.push_back("resolve4"); st.push_back("construct4"); } break; }
+            case U_POINTER: { long k = cfg.optl("ptrlen", T ? 5 : 4); for (long i = 0; i <= k; i++) st.push_back("resolve_len" + std::to_string(i)); st.push_back("resolve_special"); st.push_back("lengths"); st.push_back("construct_lengths"); st.push_back("construct"); st.push_back("after_edits"); if (T) { st.push_back("resolve4"); st.push_back("construct4"); } break; }
             case U_PATCH: st = { "single1", "single1_hooks", "indices", "casekeys", "bigpatch", "single2", "robust", "pairs" }; if (T) { st.push_back("single2full"); st.push_back("single3"); st.push_back("single4"); } break;
             case U_GENERATE: st = { "big", "pairs" }; if (T) st.push_back("pairs4"); break;
             case U_MERGE: st = { "bigapply", "biggenerate", "apply", "generate" }; if (T) { st.push_back("apply4"); st.push_back("generate4"); } break;
@@ -137,6 +163,11 @@ struct XUtils : Engine {
                 for (const char* t : { "01", "00", "1:", "1A", "+1", "1e0", "18446744073709551616", "18446744073709551617", "4294967296", "4294967297", " 1", "1 ", "-1", "0x1", "1.0", "29", "30", "10", "11", "9", "099", "1/", "a~", "~2", "~", "a~1b", "m~0n", "~01", "~10", "~00", "~11", "k~0~1", "k~/" })
                     for (const char* pre : { "/", "", "/0/", "/a/", "/a~1b/", "/a~1b/10/", "//", "/~1/" }) for (const char* post : { "", "/", "/0", "/a", "/k~0~1" }) sp.push_back(std::string(pre) + t + post);
                 for (auto& s : sp) { if (!pool_take()) continue; static Case c; c.kind = K_RESOLVE; c.set(s); for (size_t d = 0; d < D.size(); d++) { c.iv[1] = (int64_t)d; pool_run(c); } }
+            } else if (stage == "lengths") {
+                // every existing location of the ladder documents, and near misses of each (one character short, one long, last character changed, one level too deep)
+                for (size_t d = 0; d < D.size(); d++) { if (!pool_take()) continue; std::vector<std::string> ex, ins; doc_paths(D[d], "", ex, ins); std::vector<std::string> ps = ex; ps.insert(ps.end(), ins.begin(), ins.end());
+                    for (auto& p : ex) { if (!p.empty()) { ps.push_back(p.substr(0, p.size() - 1)); std::string q = p; q[q.size() - 1] = 'Q'; ps.push_back(q); std::string r = p; r[r.size() / 2] = r[r.size() / 2] == 'Q' ? 'R' : 'Q'; ps.push_back(r); } ps.push_back(p + "x"); ps.push_back(p + "/0"); ps.push_back(p + "/"); }
+                    static Case c; c.kind = K_RESOLVE; c.iv[1] = (int64_t)d; for (auto& p : ps) { if (p.size() > sizeof c.data) continue; c.set(p); pool_run(c); } }
             } else if (stage == "after_edits") {
                 // lookup, edit the array, lookup again: resolution must follow the current contents (no state kept between calls)
                 for (int i = 0; i <= 7; i++) for (int op = 0; op < 4; op++) for (int pos = 0; pos < 7; pos++) for (int j = 0; j <= 8; j++) { if (!pool_take()) continue; static Case c; c.kind = K_PTR_EDITS; c.iv[1] = i; c.iv[2] = op; c.iv[3] = pos; c.iv[4] = j; c.len = 0; pool_run(c); }
@@ -163,7 +194,7 @@ struct XUtils : Engine {
             } else if (stage == "bigpatch") {
                 // every operation on every existing / insertable location of the larger documents (paths up to 9 tokens deep)
                 for (size_t d = 0; d < D.size(); d++) {
-                    bool is_orig = true; for (auto& pr : bigpairs) if (pr.second == d) { is_orig = false; break; } if (!is_orig) continue;
+                    bool is_orig = true; for (auto& pr : bigpairs) if (pr.second == d) { is_orig = false; break; } if (!is_orig || (d >= first_chain && d < end_chain)) continue;
                     std::vector<std::string> ex, ins; doc_paths(D[d], "", ex, ins); std::vector<std::string> all = ex; all.insert(all.end(), ins.begin(), ins.end());
                     std::vector<RV> ops; RV v1 = RV::number(1), v3 = RV::mk(RV::Obj);
                     for (auto& p : all) { ops.push_back(mkop("add", p, nullptr, &v1)); ops.push_back(mkop("add", p, nullptr, &v3)); }
@@ -262,25 +293,33 @@ struct XUtils : Engine {
             const cJSON* expect2 = (ptr_tokens(p, toks) && ptr_resolve(D[d], toks, path)) ? node_at(DrealCS[d], path) : nullptr;
             if (got2 != expect2) V("pointer:constant-key-tree-differs", "pointer \"" + printable(p) + "\" resolves differently on the same document built with cJSON_AddItemToObjectCS: " + rv_text(D[d]).substr(0, 200));
         }
+        if (d < DrealNamed.size()) {   // ... and so must the same document whose array elements carry stale member names
+            cJSON* got3 = LIB(cJSONUtils_GetPointerCaseSensitive(DrealNamed[d], p.c_str())); ctr().calls++;
+            const cJSON* expect3 = (ptr_tokens(p, toks) && ptr_resolve(D[d], toks, path)) ? node_at(DrealNamed[d], path) : nullptr;
+            if (got3 != expect3) V("pointer:named-array-elements-differ", "pointer \"" + printable(p) + "\" resolves differently when the array elements carry (stale) member names: " + rv_text(D[d]).substr(0, 200));
+        }
         if (expect) { ctr().extra[1]++; ctr().nontrivial++; } else ctr().extra[2]++;
         if (verbose) printf("  GetPointerCaseSensitive(%s, \"%s\") -> %s, reference: %s\n", rv_text(D[d]).substr(0, 100).c_str(), printable(p).c_str(), got ? wt(got).c_str() : "NULL", expect ? wt(expect).c_str() : "NULL");
         if (got != expect) V(expect ? (got ? "pointer:wrong-node" : "pointer:not-found") : "pointer:resolves-invalid", "pointer \"" + printable(p) + "\" on " + rv_text(D[d]).substr(0, 200) + " returned " + (got ? "node " + wt(got) : "NULL") + ", RFC 6901 designates " + (expect ? wt(expect) : "nothing"));
         note_outcome((uint64_t)(expect != nullptr) | (uint64_t)(got != nullptr) << 1 | (uint64_t)toks.size() << 2);
     }
     static std::string wt(const cJSON* n) { Walk w = walk(n, W_NO_OWNED); return w.ok ? w.text.substr(0, 80) : "?"; }
-    void construct_rec(size_t d, const RV& v, const cJSON* n, const std::string& ptr) {
-        char* s = LIB(cJSONUtils_FindPointerFromObjectTo(Dreal[d], n)); ctr().calls++; ctr().compared++; ctr().extra[6]++;
+    void construct_rec(size_t d, const RV& v, const cJSON* n, const std::string& ptr, cJSON* root = nullptr) {
+        if (!root) root = Dreal[d];
+        char* s = LIB(cJSONUtils_FindPointerFromObjectTo(root, n)); ctr().calls++; ctr().compared++; ctr().extra[6]++;
         if (!s) { V("pointer:construct-null", "FindPointerFromObjectTo returned NULL for a node inside the tree (expected \"" + printable(ptr) + "\") in " + rv_text(D[d]).substr(0, 200)); return; }
         if (ptr != s) V("pointer:construct-wrong", "FindPointerFromObjectTo gave \"" + printable(s) + "\", expected \"" + printable(ptr) + "\" in " + rv_text(D[d]).substr(0, 200));
-        cJSON* back = LIB(cJSONUtils_GetPointerCaseSensitive(Dreal[d], s)); if (back != n) V("pointer:construct-not-inverse", "constructed pointer \"" + printable(s) + "\" does not resolve back to its node in " + rv_text(D[d]).substr(0, 200));
+        cJSON* back = LIB(cJSONUtils_GetPointerCaseSensitive(root, s)); if (back != n) V("pointer:construct-not-inverse", "constructed pointer \"" + printable(s) + "\" does not resolve back to its node in " + rv_text(D[d]).substr(0, 200));
         LIBV(cJSON_free(s));
         const cJSON* ch = n->child;
-        if (v.k == RV::Obj) for (auto& kv : v.obj) { construct_rec(d, kv.second, ch, ptr + "/" + ptr_encode_token(kv.first)); ch = ch->next; }
-        if (v.k == RV::Arr) for (size_t i = 0; i < v.arr.size(); i++) { construct_rec(d, v.arr[i], ch, ptr + "/" + std::to_string(i)); ch = ch->next; }
+        if (v.k == RV::Obj) for (auto& kv : v.obj) { construct_rec(d, kv.second, ch, ptr + "/" + ptr_encode_token(kv.first), root); ch = ch->next; }
+        if (v.k == RV::Arr) for (size_t i = 0; i < v.arr.size(); i++) { construct_rec(d, v.arr[i], ch, ptr + "/" + std::to_string(i), root); ch = ch->next; }
     }
     void do_construct(const Case& c) {
         size_t d = (size_t)c.iv[1]; if (d >= D.size()) return; ctr().nontrivial++;
         construct_rec(d, D[d], Dreal[d], "");
+        if (d < DrealCS.size()) construct_rec(d, D[d], DrealCS[d], "", DrealCS[d]);
+        if (d < DrealNamed.size()) construct_rec(d, D[d], DrealNamed[d], "", DrealNamed[d]);
         size_t other = (d + 1) % D.size(); char* s = LIB(cJSONUtils_FindPointerFromObjectTo(Dreal[d], Dreal[other]));
         if (s) { V("pointer:construct-foreign", "FindPointerFromObjectTo returned \"" + printable(s) + "\" for a node outside the tree"); LIBV(cJSON_free(s)); }
         if (LIB(cJSONUtils_FindPointerFromObjectTo(nullptr, Dreal[d])) || LIB(cJSONUtils_FindPointerFromObjectTo(Dreal[d], nullptr))) V("pointer:construct-null-arg", "NULL argument accepted");
@@ -306,8 +345,9 @@ struct XUtils : Engine {
         if (c.iv[1] < 0) { std::string s = c.str(); size_t sep = s.find('\x1f'); if (sep == std::string::npos || !rv_deser(s.substr(0, sep), inline_doc) || !rv_deser(s.substr(sep + 1), patch)) return; docp = &inline_doc; }
         else { size_t di = (size_t)c.iv[1]; if (di >= D.size() || !rv_deser(c.str(), patch)) return; docp = &D[di]; }
         const RV& DOC = *docp;
-        bool csvar = ((c.iv[1] + (int64_t)c.len) & 1) != 0;   // every other case: document and patch built with constant keys (flag bits in type)
-        cJSON* doc = csvar ? build_tree_cs(DOC) : build_tree(DOC); cJSON* pt = csvar ? build_tree_cs(patch) : build_tree(patch);
+        int bvar = (int)(((uint64_t)(c.iv[1] + 1) + c.len) % 4);   // 1, 3: document and patch built with constant keys (flag bits in type); 2: array elements carry stale member names
+        auto bt = [&](const RV& v) { return bvar == 2 ? build_tree_named(v) : (bvar & 1) ? build_tree_cs(v) : build_tree(v); };
+        cJSON* doc = bt(DOC); cJSON* pt = bt(patch);
         if (cfg.opt.count("hooks_stage")) { }
         int status = LIB(cJSONUtils_ApplyPatchesCaseSensitive(doc, pt)); ctr().calls++;
         RV ref = DOC; PatchEval pe; PatchVerdict pv = pe.apply(ref, patch);
@@ -331,7 +371,7 @@ struct XUtils : Engine {
 
     void do_generate(const Case& c) {
         size_t i = (size_t)c.iv[1], j = (size_t)c.iv[2]; if (i >= D.size() || j >= D.size()) return;
-        cJSON* from = ((i + j) % 3 == 1) ? build_tree_cs(D[i]) : build_tree(D[i]); cJSON* to = ((i + j) % 3 == 2) ? build_tree_cs(D[j]) : build_tree(D[j]); std::string ctx = "from " + rv_text(D[i]).substr(0, 150) + " to " + rv_text(D[j]).substr(0, 150);
+        cJSON* from = ((i + j) % 4 == 1) ? build_tree_cs(D[i]) : ((i + j) % 4 == 3) ? build_tree_named(D[i]) : build_tree(D[i]); cJSON* to = ((i + j) % 4 == 2) ? build_tree_cs(D[j]) : ((i + j) % 4 == 3) ? build_tree_named(D[j]) : build_tree(D[j]); std::string ctx = "from " + rv_text(D[i]).substr(0, 150) + " to " + rv_text(D[j]).substr(0, 150);
         cJSON* patch = LIB(cJSONUtils_GeneratePatchesCaseSensitive(from, to)); ctr().calls++; ctr().compared++;
         bool equal = rv_equal_sets(D[i], D[j]); if (!equal) ctr().nontrivial++;
         if (!patch) { V("generate:null", "GeneratePatchesCaseSensitive returned NULL | " + ctx); LIBV(cJSON_Delete(from)); LIBV(cJSON_Delete(to)); return; }
@@ -360,7 +400,7 @@ struct XUtils : Engine {
 
     void do_merge(const Case& c) {
         size_t i = (size_t)c.iv[1], j = (size_t)c.iv[2]; if (i >= D.size() || j >= D.size()) return;
-        cJSON* target = ((i + j) % 3 == 1) ? build_tree_cs(D[i]) : build_tree(D[i]); cJSON* patch = ((i + j) % 3 == 2) ? build_tree_cs(D[j]) : build_tree(D[j]); std::string ctx = "target " + rv_text(D[i]).substr(0, 150) + " patch " + rv_text(D[j]).substr(0, 150);
+        cJSON* target = ((i + j) % 4 == 1) ? build_tree_cs(D[i]) : ((i + j) % 4 == 3) ? build_tree_named(D[i]) : build_tree(D[i]); cJSON* patch = ((i + j) % 4 == 2) ? build_tree_cs(D[j]) : ((i + j) % 4 == 3) ? build_tree_named(D[j]) : build_tree(D[j]); std::string ctx = "target " + rv_text(D[i]).substr(0, 150) + " patch " + rv_text(D[j]).substr(0, 150);
         RV ref = merge_apply(D[i], D[j]);
         cJSON* res = LIB(cJSONUtils_MergePatchCaseSensitive(target, patch)); ctr().calls++; ctr().compared++; if (D[j].k == RV::Obj) ctr().nontrivial++;
         if (!res) V("merge:null", "MergePatchCaseSensitive returned NULL | " + ctx);
@@ -371,7 +411,7 @@ struct XUtils : Engine {
     void do_mergegen(const Case& c) {
         size_t i = (size_t)c.iv[1], j = (size_t)c.iv[2]; if (i >= D.size() || j >= D.size()) return;
         if (has_null_member(D[j])) { ctr().extra[3]++; return; }
-        cJSON* from = ((i + j) % 3 == 1) ? build_tree_cs(D[i]) : build_tree(D[i]); cJSON* to = ((i + j) % 3 == 2) ? build_tree_cs(D[j]) : build_tree(D[j]); std::string ctx = "from " + rv_text(D[i]).substr(0, 150) + " to " + rv_text(D[j]).substr(0, 150);
+        cJSON* from = ((i + j) % 4 == 1) ? build_tree_cs(D[i]) : ((i + j) % 4 == 3) ? build_tree_named(D[i]) : build_tree(D[i]); cJSON* to = ((i + j) % 4 == 2) ? build_tree_cs(D[j]) : ((i + j) % 4 == 3) ? build_tree_named(D[j]) : build_tree(D[j]); std::string ctx = "from " + rv_text(D[i]).substr(0, 150) + " to " + rv_text(D[j]).substr(0, 150);
         cJSON* patch = LIB(cJSONUtils_GenerateMergePatchCaseSensitive(from, to)); ctr().calls++; ctr().compared++; ctr().nontrivial++;
         RV result = D[i];
         if (patch) { Walk wp = walk(patch); if (!wp.ok) V("mergegen:patch-malformed", wp.err + " | " + ctx); else { RV prv = rv_from_tree(patch); if (verbose) printf("  merge patch %s\n", rv_text(prv).c_str()); result = merge_apply(D[i], prv);
